@@ -80,6 +80,8 @@ struct HModel {
     reach_longer_than_entry: AtomicU64,
     reach_nothing: AtomicU64,
     violations: Mutex<Vec<(String, serde_json::Value)>>,
+    /// one state of this run, written out (entries and what every kind of lookup returned)
+    sample: Mutex<Option<serde_json::Value>>,
 }
 
 fn set(rf: &mut Vec<(PathV, u8)>, p: PathV, v: u8) {
@@ -97,6 +99,14 @@ impl HModel {
         let entries: Vec<(PathV, u8)> = s.h.iter().map(|(p, v)| (p.clone(), *v)).collect();
         if entries != s.rf {
             self.push("hierarchy entries-differ-from-reference", s, how, json!({"entries": format!("{:?}", entries)}));
+        }
+        if s.rf.len() == 3 && s.rf.iter().any(|(p, _)| p.len() == 1) && s.rf.iter().any(|(p, _)| p.len() >= 2) {
+            let mut slot = self.sample.lock().unwrap();
+            if slot.is_none() {
+                let show = |p: &PathV| p.join(".");
+                let looked: Vec<String> = self.lookups.iter().take(14).map(|l| format!("{} -> library {:?} / reference {:?}", show(l), guarded(|| s.h.get(l).cloned()).ok().flatten(), ref_lookup(&s.rf, l).map(|x| x.1))).collect();
+                *slot = Some(json!({"reached_by": how, "entries": s.rf.iter().map(|(p, v)| format!("{}->{}", show(p), v)).collect::<Vec<_>>(), "lookups": looked}));
+            }
         }
         for l in &self.lookups {
             self.lookups_checked.fetch_add(1, Ordering::Relaxed);
@@ -243,6 +253,7 @@ pub fn part_a(ctx: &Ctx, r: &mut Report) {
         reach_longer_than_entry: AtomicU64::new(0),
         reach_nothing: AtomicU64::new(0),
         violations: Mutex::new(vec![]),
+        sample: Mutex::new(None),
     };
     let checker = m.checker().threads(std::env::var("QV_SR_THREADS").ok().and_then(|s| s.parse().ok()).unwrap_or(16)).spawn_bfs().join();
     let states = checker.unique_state_count() as u64;
@@ -264,7 +275,10 @@ pub fn part_a(ctx: &Ctx, r: &mut Report) {
     for (sig, d) in m.violations.lock().unwrap().iter() {
         r.violation(sig.clone(), "hierarchy", d.clone());
     }
-    r.sample(json!({"entries": ["a.b->1", "b->2"], "lookups": {"b": "exact -> 2", "a.b": "exact -> 1", "b.b": "unique trailing agreement with entry b -> 2", "x.a.b": "-> 1", "a": "nothing"}}));
+    let smp = m.sample.lock().unwrap().clone();
+    if let Some(smp) = smp {
+        r.sample(smp);
+    }
 }
 
 pub fn run(ctx: &Ctx) -> Report {
